@@ -225,11 +225,40 @@ fn content_equal(source: &FileEntry, dest: &FileEntry) -> Result<bool> {
         return Ok(false);
     }
 
-    // For now, assume equal if sizes match
-    // In future: compare checksums if available
-    // This is conservative (may miss some conflicts) but safe
+    // Same size: compare the bytes. Treating equally long files as identical would let two
+    // different versions pass for "already in sync": no action, no conflict, and each of them
+    // survives only on its own side. When the files cannot be read here (entries that do not
+    // refer to local files) the size comparison is all there is.
+    Ok(files_have_same_bytes(&source.path, &dest.path).unwrap_or(true))
+}
 
-    Ok(true)
+/// Byte-wise comparison of two local files
+fn files_have_same_bytes(a: &Path, b: &Path) -> std::io::Result<bool> {
+    use std::io::Read;
+
+    let mut fa = std::io::BufReader::new(std::fs::File::open(a)?);
+    let mut fb = std::io::BufReader::new(std::fs::File::open(b)?);
+    let mut buf_a = vec![0u8; 64 * 1024];
+    let mut buf_b = vec![0u8; 64 * 1024];
+
+    loop {
+        let n = fa.read(&mut buf_a)?;
+        if n == 0 {
+            // `a` is exhausted: equal iff `b` is exhausted too
+            return Ok(fb.read(&mut buf_b)? == 0);
+        }
+        let mut filled = 0;
+        while filled < n {
+            let m = fb.read(&mut buf_b[filled..n])?;
+            if m == 0 {
+                return Ok(false); // `b` is shorter
+            }
+            filled += m;
+        }
+        if buf_a[..n] != buf_b[..n] {
+            return Ok(false);
+        }
+    }
 }
 
 #[cfg(test)]
